@@ -24,12 +24,13 @@ use crate::{
     GDResult,
 };
 
-use bzip2_rs::decoder::Decoder;
+use bzip2_rs::decoder::DecoderReader;
 
 use crate::buffer::Utf8Decoder;
 use crate::protocols::valve::Packet;
 use byteorder::LittleEndian;
 use std::collections::HashMap;
+use std::io::Read;
 use std::net::SocketAddr;
 
 #[derive(Debug)]
@@ -88,17 +89,14 @@ impl SplitPacket {
 
     fn get_payload(&self) -> GDResult<Vec<u8>> {
         if let Some(decompressed) = self.decompressed {
-            let mut decoder = Decoder::new();
-            decoder
-                .write(&self.payload)
-                .map_err(|e| Decompress.context(e))?;
+            let mut decoder = DecoderReader::new(self.payload.as_slice());
 
             let decompressed_size = decompressed.0 as usize;
 
             let mut decompressed_payload = vec![0; decompressed_size];
 
             decoder
-                .read(&mut decompressed_payload)
+                .read_exact(&mut decompressed_payload)
                 .map_err(|e| Decompress.context(e))?;
 
             if decompressed_payload.len() != decompressed_size
